@@ -68,6 +68,17 @@ def _pack_res(p):
         return [1, core.classify_exception(e)]
 
 
+def _unpack(cls, octs):
+    """K.unpack from bytes or -- every third input, and half of the inputs of 512 octets or more -- from a bytearray
+    (a receive buffer) that is overwritten after the call: the decoded object must not depend on it any more"""
+    if (len(octs) + sum(octs[:8])) % 3 and not (len(octs) >= 512 and sum(octs[:8]) % 2):
+        return cls.unpack(bytes(octs))
+    buf = bytearray(octs)
+    p = cls.unpack(buf)
+    buf[:] = b"\xa5" * len(buf)
+    return p
+
+
 def _conf_lists(c):
     return [[c.source_entity_id.value, c.source_entity_id.byte_len, c.dest_entity_id.value, c.dest_entity_id.byte_len,
              c.transaction_seq_num.value, c.transaction_seq_num.byte_len],
@@ -84,13 +95,13 @@ def impl(op, a):
     if op == 1371:
         return [list(_pdu(a)[0].pack())]
     if op == 1372:
-        return _fields(NakPdu.unpack(bytes(a[0])))
+        return _fields(_unpack(NakPdu, a[0]))
     if op == 1373:
-        return [list(NakPdu.unpack(bytes(a[0])).pack())]
+        return [list(_unpack(NakPdu, a[0]).pack())]
     if op == 1374:
         p, _ = _pdu(a)
         b = p.pack()
-        p2 = NakPdu.unpack(bytes(b) + bytes(a[4] if len(a) > 4 else []))
+        p2 = _unpack(NakPdu, list(b) + list(a[4] if len(a) > 4 else []))
         return [[int(p2 == p)]] + _fields(p2) + [_pack_res(p2)]
     if op == 1375:
         return [[get_max_seg_reqs_for_max_packet_size_and_pdu_cfg(a[2][0], h5._conf(a[0], a[1]))]]
@@ -214,6 +225,24 @@ def streams(tier, rng):
         a = _rand_pdu(rng, 300, crc=crc, large=large)
         cases.append((1371, a)); cases.append((1374, a + [[]]))
     yield "exh_nak_segment_counts", "exact", cases
+    # 2b. size sweep: every number of segment requests 0..100; then the counts that put the packet length next to
+    #     every multiple of 512 octets up to 8 KiB (32-bit offsets) / 16 KiB (64-bit); thorough: every count up to
+    #     1100.  (The model's pack is quadratic in the count: beyond 100 only pack, not the round trip.)
+    cases = []
+    for n in range(0, 101):
+        a = _rand_pdu(rng, n)
+        cases.append((1374, a + [[]]))
+    for j in ((2, 3, 4, 6, 8, 12, 16) if not big else range(2, 17)):
+        for n in (64 * j - 3, 64 * j - 2, 64 * j - 1, 64 * j):
+            a = _rand_pdu(rng, n, large=0 if j > 4 else rng.randrange(2))
+            cases.append((1371, a))
+            if j in (2, 4, 8):
+                cases.append((1374, a + [[]]))
+    if big:
+        for n in range(101, 1101):
+            a = _rand_pdu(rng, n)
+            cases.append((1374, a + [[]]) if n % 8 == 0 else (1371, a))
+    yield "exh_sizes_nak_segment_requests", "exact", cases
     # 3. offsets at and beyond the 32/64-bit range in every position
     cases = []
     vals = [0, 1, 2 ** 31 - 1, 2 ** 31, 2 ** 32 - 1, 2 ** 32, 2 ** 32 + 1, 2 ** 63, 2 ** 64 - 1, 2 ** 64, 2 ** 65, -1, -2 ** 31]
